@@ -23,8 +23,8 @@ import (
 func runC09FaultedConstruction(c *eng.Ctx, next func() (int, bool)) {
 	spec := &core.Spec{Regs: []core.Reg{
 		core.MkReg("Leaf_K0_a", godi.Scoped),
-		core.MkReg("PosA_1_1", godi.Scoped),    // K1(K0)
-		core.MkReg("PosB_2_1", godi.Scoped),    // K2(K0)
+		core.MkReg("PosA_1_1", godi.Scoped), // K1(K0)
+		core.MkReg("PosB_2_1", godi.Scoped), // K2(K0)
 		core.MkReg("MR_S0S4", godi.Scoped),
 		core.MkReg("Leaf_S1_a", godi.Scoped, core.WithGroup("g")),
 	}}
